@@ -36,7 +36,8 @@ var (
 	F32s       = []float32{0, 40.7128, -74.006, 359.5, 1e-30, 3.4e38}
 	F64s       = []float64{0, 12345.678, 1e15, -0.5}
 	// Dates: token = index; 0 is "no date".
-	Dates = []string{"", "20240310", "20241103", "20240229", "19700101", "20991231", "20240401"}
+	// 20240908: DST starts at local midnight in America/Santiago (00:00 does not exist that day)
+	Dates = []string{"", "20240310", "20241103", "20240229", "19700101", "20991231", "20240401", "20240908"}
 )
 
 func init() {
